@@ -251,7 +251,7 @@ func init() {
 			"target state classes are derived from the behaviour trace and event stream up to the send; in racing mode the interleaving is the Go scheduler's",
 		},
 		Units: []Unit{
-			{Name: "cons", Pkg: "c03", Run: "^TestC03Conservation$", QuickChecks: 5000, ThoroughChecks: 50000, ThoroughShards: 16, CaseFile: true, CrashOracle: "no-crash"},
+			{Name: "cons", Pkg: "c03", Run: "^TestC03Conservation$", QuickChecks: 5000, ThoroughChecks: 50000, ThoroughShards: 16, CaseFile: true, CrashOracle: "no-crash", Inject: []Inject{{RepoRel: "internal/actor/zz_verif_export.go", Src: "overlay/actor_export.go.txt"}}},
 		},
 	}
 
